@@ -36,14 +36,6 @@ theorem cfgChanged_iff (c : CfgView) (x y : Option Snap) :
   rw [bne_iff_ne]
   constructor <;> intro h h' <;> exact h h'.symm
 
-/-- In this tree `_serialize_jobs` compares the job-status hash with `_config_hash`: whenever that slot does not
-    hold a job-status snapshot (it never does, `HashWf`), the test says "changed". -/
-theorem jsChanged_of_cfgSlot (j : JsView) (x y : Option Snap) (hx : ∀ j' : JsView, x ≠ some (Snap.js j')) :
-    jsChanged (Snap.js j) x y = true := by
-  simp only [jsChanged, bne_iff_ne, ne_eq]
-  intro h
-  exact hx j h.symm
-
 theorem cfgVersionBump_eq (v : Nat) : cfgVersionBump v = v + 1 := rfl
 theorem jsVersionBump_eq (v : Nat) : jsVersionBump v = v + 1 := rfl
 
